@@ -79,6 +79,9 @@ for n in range(1, N + 1):
                         def obs(c, b):
                             raise RuntimeError("observer")
                         broker.add_observer(obs, component)
+                        # observers are arbitrary callables: a functools.partial (no __name__ / __qualname__) that fails as well
+                        import functools
+                        broker.add_observer(functools.partial(obs), component)
                     g = dict((c, set(d)) for c, d in graph.items())
                     if partial:
                         del g[comps[0]]          # component 0 is mentioned as a dependency but does not take part
